@@ -255,6 +255,26 @@ def _validate(ctx, evs, label):
     return out
 
 
+def _check_def(ctx, ta, tb):
+    """two spellings the spec proves identical: same observation, same magnitude,
+    convertible into one another with ratio one"""
+    (ka, va, _), (kb, vb, _) = call(eval_qty, ta), call(eval_qty, tb)
+    oa, xa = observe(ka, va)
+    ob, xb = observe(kb, vb)
+    if not (oa['ok'] and ob['ok'] and oa == ob and close(xa, xb)):
+        ctx.violation('definition:%s=%s' % (ta, tb),
+                      '%r and %r must be the same quantity: %s %r vs %s %r'
+                      % (ta, tb, oa, xa, ob, xb), {'kind': 'def', 'a': ta, 'b': tb})
+        return
+    if isinstance(va, Quantity) and isinstance(vb, Quantity):
+        kc, c, _ = call(va.in_units, tb)
+        kd, d, _ = call(in_units, vb, ta)
+        if not (kc == 'value' and close(c, 1.0) and kd == 'value' and close(d, 1.0)):
+            ctx.violation('definition-convert:%s=%s' % (ta, tb),
+                          '(%s).in_units(%r) = %r and in_units(%s, %r) = %r; both must be 1'
+                          % (ta, tb, c, tb, ta, d), {'kind': 'def', 'a': ta, 'b': tb})
+
+
 def run(ctx):
     thorough = ctx.tier == 'thorough'
     cfg = 'MC_Units_t.cfg' if thorough else 'MC_Units_q.cfg'
@@ -284,16 +304,8 @@ def run(ctx):
                 'spec': _expect(cases[total // 2]['r'])[0]})
     # definitional identities on the implementation
     for a, b in defs:
-        ta, tb = uncodes(a), uncodes(b)
-        (ka, va, _), (kb, vb, _) = call(eval_qty, ta), call(eval_qty, tb)
-        oa, xa = observe(ka, va)
-        ob, xb = observe(kb, vb)
-        ctx.count('def:' + ta)
-        if not (oa['ok'] and ob['ok'] and oa == ob and close(xa, xb)):
-            ctx.violation('definition:%s=%s' % (ta, tb),
-                          '%r and %r must be the same quantity: %s %r vs %s %r'
-                          % (ta, tb, oa, xa, ob, xb),
-                          {'kind': 'def', 'a': ta, 'b': tb})
+        ctx.count('def:' + uncodes(a))
+        _check_def(ctx, uncodes(a), uncodes(b))
     # random sessions
     rng = random.Random(ctx.seed)
     nses, ln, depth = (40, 250, 3) if thorough else (8, 200, 2)
@@ -325,11 +337,7 @@ def replay(ctx, rep):
     elif c['kind'] == 'conv':
         _conversions(ctx, c['text'], c['r'])
     elif c['kind'] == 'def':
-        (ka, va, _), (kb, vb, _) = call(eval_qty, c['a']), call(eval_qty, c['b'])
-        oa, xa = observe(ka, va)
-        ob, xb = observe(kb, vb)
-        if not (oa['ok'] and ob['ok'] and oa == ob and close(xa, xb)):
-            ctx.violation('definition:%s=%s' % (c['a'], c['b']), 'still differs', c)
+        _check_def(ctx, c['a'], c['b'])
     else:
         evs = []
         cur = None
